@@ -1173,15 +1173,15 @@ impl DbInner {
 						LogAction::EndRecord => break,
 						LogAction::InsertIndex(insertion) => {
 							self.columns[insertion.table.col() as usize]
-								.enact_plan(LogAction::InsertIndex(insertion), &mut reader)?;
+								.enact_plan(LogAction::InsertIndex(insertion), &mut reader, validation_mode)?;
 						},
 						LogAction::InsertValue(insertion) => {
 							self.columns[insertion.table.col() as usize]
-								.enact_plan(LogAction::InsertValue(insertion), &mut reader)?;
+								.enact_plan(LogAction::InsertValue(insertion), &mut reader, validation_mode)?;
 						},
 						LogAction::InsertRefCount(insertion) => {
 							self.columns[insertion.table.col() as usize]
-								.enact_plan(LogAction::InsertRefCount(insertion), &mut reader)?;
+								.enact_plan(LogAction::InsertRefCount(insertion), &mut reader, validation_mode)?;
 						},
 						LogAction::DropTable(id) => {
 							log::debug!(
